@@ -295,6 +295,26 @@ func TestVerifBlockTree(t *testing.T) {
 						}
 						fail("C15", "err", "an error (block must be rejected)", "nil", "AddBlock/"+cls+"/accepted")
 						abandon = true
+					} else {
+						// "must keep no trace of it": a refused block is not reachable from the root, whatever the leaf set says
+						// (a trace only shows later, when Prune rebuilds the leaves from the structure)
+						res.Cmp()
+						traced := w.bt.root.getNode(hd.Hash()) != nil
+						for _, h := range w.bt.GetAllBlocks() {
+							if h == hd.Hash() {
+								traced = true
+							}
+						}
+						if traced {
+							// it breaks "holds exactly the added blocks" (C15) and, once the leaves are rebuilt, "the best block is a
+							// leaf of the accepted blocks" (C16): reported under whichever of the two is being checked
+							owner := vEnvStr("VERIF_PROP", "C15")
+							if owner != "C16" {
+								owner = "C15"
+							}
+							fail(owner, "tree", "refused block not in the tree", "refused block is linked under its parent", "AddBlock/"+strings.TrimPrefix(o.Op, "Add")+"/refused-but-linked")
+							abandon = true
+						}
 					}
 				case "AddDup":
 					err := w.bt.AddBlock(w.hdr[o.B], base)
